@@ -34,12 +34,18 @@ CONFIGS = {
     "web_vb":    dict(pkg="tonic-web", features="",                members=["tonic", "tonic-web"], shims=["tracing", "http", "vbytes"]),
     "types":     dict(pkg="tonic-types", features="",              members=["tonic", "tonic-types"], shims=["tracing", "http"]),
     "types_vb":  dict(pkg="tonic-types", features="",              members=["tonic", "tonic-types"], shims=["tracing", "http", "vbytes"]),
+    # variants with the inline HeaderMap model instead of the real map with a constant hash
+    "core_m":    dict(pkg="tonic", features="",                    members=["tonic"], shims=["tracing", "httpm"]),
+    "comp_m":    dict(pkg="tonic", features="gzip,deflate,zstd",   members=["tonic"], shims=["tracing", "httpm"]),
+    "transport_m": dict(pkg="tonic", features="channel,server",    members=["tonic"], shims=["tracing", "httpm"]),
+    "web_m":     dict(pkg="tonic-web", features="",                members=["tonic", "tonic-web"], shims=["tracing", "httpm"]),
 }
 
 SHIM_PATHS = {
     "tracing": ("tracing", os.path.join(VERIF, "shims/tracing")),
     "vbytes": ("bytes", os.path.join(VERIF, "shims/vbytes")),
     "http": ("http", os.path.join(VERIF, ".cache/http-patched")),
+    "httpm": ("http", os.path.join(VERIF, ".cache/http-model")),
 }
 
 
@@ -71,7 +77,10 @@ class Scratch:
         members = self.cfg["members"]
         patch = ""
         if not native:
-            ensure_http_patched()
+            if "http" in self.cfg["shims"]:
+                ensure_http_patched()
+            if "httpm" in self.cfg["shims"]:
+                ensure_http_model()
             lines = []
             for s in self.cfg["shims"]:
                 name, path = SHIM_PATHS[s]
@@ -104,10 +113,44 @@ _http_lock = threading.Lock()
 
 
 def ensure_http_patched():
+    """Scratch copy of the pinned http-1.5.0 with one function changed: hash_elem_using returns a constant under
+    cfg(kani) (all keys collide; probing / robin-hood / entry code stays real).  Fails closed if the hunk does not apply."""
+    with _http_lock:
+        dst = os.path.join(VERIF, ".cache/http-patched")
+        stamp = os.path.join(dst, ".verif-patched")
+        if os.path.exists(stamp) and open(stamp).read().startswith("constant hash"):
+            return dst
+        srcs = glob.glob(os.path.expanduser("~/.cargo/registry/src/*/http-1.5.0"))
+        if not srcs:
+            raise Inconclusive("pinned http-1.5.0 source not found in the cargo registry")
+        tmp = dst + ".tmp.%d" % os.getpid()
+        shutil.rmtree(tmp, ignore_errors=True)
+        shutil.copytree(srcs[0], tmp)
+        mp = os.path.join(tmp, "src/header/map.rs")
+        text = open(mp).read()
+        needle = "fn hash_elem_using<K>(danger: &Danger, k: &K) -> HashValue\nwhere\n    K: Hash + ?Sized,\n{\n"
+        if text.count(needle) != 1:
+            shutil.rmtree(tmp, ignore_errors=True)
+            raise Inconclusive("http patch hunk (hash_elem_using) does not apply")
+        text = text.replace(needle, needle + "    if cfg!(kani) {\n        let _ = (danger, k);\n        return HashValue(0);\n    }\n", 1)
+        open(mp, "w").write(text)
+        for junk in (".cargo-ok", ".cargo_vcs_info.json", "Cargo.toml.orig"):
+            try:
+                os.remove(os.path.join(tmp, junk))
+            except OSError:
+                pass
+        open(os.path.join(tmp, ".verif-patched"), "w").write("constant hash under cfg(kani)\n")
+        shutil.rmtree(dst, ignore_errors=True)
+        os.makedirs(os.path.dirname(dst), exist_ok=True)
+        os.rename(tmp, dst)
+        return dst
+
+
+def ensure_http_model():
     """Scratch copy of the pinned http-1.5.0 with src/header/map.rs replaced by the Vec-backed model
     /verif/shims/http-model/map.rs (DESIGN §3.4).  Regenerated whenever absent or the model changed."""
     with _http_lock:
-        dst = os.path.join(VERIF, ".cache/http-patched")
+        dst = os.path.join(VERIF, ".cache/http-model")
         model = os.path.join(VERIF, "shims/http-model/map.rs")
         stamp = os.path.join(dst, ".verif-patched")
         sig = str(os.path.getmtime(model)) + ":" + str(os.path.getsize(model))
@@ -198,13 +241,8 @@ def _run(cmd, timeout, mem_gb, out_path=None):
 
 
 DEFAULT_UNWINDSET = [
-    # header maps in harnesses hold <= 3 names and <= 2 extra values per name (HeaderMap model, shims/http-model)
-    ("function http::HeaderMap::find_name", 5),
-    ("function http::HeaderMap::len", 5),
-    ("function http::HeaderMap::<", 5),
-    ("drop_glue::<[http::header::map::Group<", 5),
-    ("drop_glue::<[http::HeaderValue]>", 4),
-    ("drop_glue::<[(std::option::Option<http::HeaderName>, http::HeaderValue)]>", 6),
+    ("drop_glue::<[http::header::map::Bucket<", 4),      # header maps in harnesses hold <= 3 entries
+    ("drop_glue::<[http::header::map::ExtraValue<", 3),  # <= 2 extra values (repeated name)
 ]
 
 
